@@ -44,8 +44,8 @@ T = {
          'enumerated call-granularity interleavings of 2-3 processes (file and db back-ends, handles tracked per object incarnation) plus concurrent runs, duels and observers with injected delays; after concurrent runs every process and a fresh one must read one value per object; runs with rare long stalls', 'concurrent runs, duels and observers: file back-end (the anchors); serialised interleavings: file and db', '3/C15'),
  'C16': ('faults', FE, 'crash-point enumeration by FS interposition (_exit before/after every FS operation, torn flushes) + recovery probe in a fresh process',
          'every FS operation of every writing call kind is a crash point; recovery compares every object and PIN with the pre/post snapshots; token flags old-or-new; every record-boundary prefix of a protected key file opened by a fresh process that tries to read and wrap the key', 'process death, not power loss', '3/C16'),
- 'C17': ('fuzz', EX, 'ASan/UBSan + termination interposers under generated hostile API sequences and structure-aware file mutation',
-         'hostile call sequences over all entry points, mutated object/token/config files and serialised multi-process interleavings; any sanitizer memory report, fatal signal, exit/abort or non-CKR return is a violation', 'a clean ASan run is not memory safety; crypto libraries are uninstrumented', '3/C17'),
+ 'C17': ('fuzz', EX, 'ASan/UBSan + termination interposers under generated hostile API sequences, coverage-guided libFuzzer harnesses and structure-aware file mutation',
+         'hostile call sequences over all entry points, mutated object/token/config files and serialised multi-process interleavings; any sanitizer memory report, fatal signal, exit/abort or non-CKR return is a violation; plus a coverage-guided lane: libFuzzer harnesses (ASan/UBSan) over object files, token.object, softhsm2.conf and the DER / ByteString helpers', 'a clean ASan run is not memory safety; crypto libraries are uninstrumented', '3/C17'),
  'C18': ('conc', EX, 'ASan + TSan builds under multi-threaded stress with yielding mutex callbacks; behavioural oracles (conservation, uniqueness, thread-local results) and a linearizability search against the model',
          'thread counts 2-16, seeds, both locking modes; data races keyed by racy location against a recorded baseline', 'schedules are sampled, not enumerated; no deterministic replay (no rr)', '3/C18'),
  'C19': ('walker', EX, 'lock-step search oracle: result multiset compared with model.visible ∩ matches for generated populations/templates/batch sizes',
